@@ -24,7 +24,7 @@ class PostfixIncDec(Hybrid):
         """
         if self.op_type == HybridType.INC or self.op_type == HybridType.DEC:
             if isinstance(self.ops[0], Register):
-                return f"WRITE_REG(pkt, {self.ops[0].get_op_var()}, {self.il_exec()})"
+                return f"WRITE_REG(bundle, {self.ops[0].get_op_var()}, {self.il_exec()})"
             return f"SET{self.gl}({self.ops[0].vm_id()}, {self.il_exec()})"
         else:
             raise NotImplementedError(f"{self.op_type} not implemented.")
